@@ -109,6 +109,8 @@ class Interp:
         self.notes = []
         self.extra_models = models or {}
         self.inline_derived = False
+        # opt-in: positions handed out by `enumerate` are the constants 0, 1, 2 ... (decides `if position > 0`)
+        self.count_enumerate = False
         self.tsub = {}   # generic parameter name -> concrete type string, for the body being interpreted
 
     # ------------------------------------------------------------------ values / memory
@@ -1265,6 +1267,18 @@ class Interp:
         # a lazy adaptor draws from the iterator underneath: next(map(X, f)) = next(X).map(f); copied / cloned = identity
         from norm import short_callee as _sc
         sc_ = _sc(it[1]) if it[0] == "call" else ""
+        if self.count_enumerate and it[0] == "call" and len(it[2]) == 1 and sc_.split("::")[-1] == "enumerate":
+            # `enumerate` pairs each item with its position: the position of the k-th draw is k
+            out = []
+            rkey = self.resolve(st, it)
+            for s2, nxt in self.iter_next(st, it[2][0], depth, stack):
+                if nxt[2] == "None":
+                    out.append((s2, nxt))
+                    continue
+                k_ = sum(1 for ev in s2.events if ev[0] == "enum_next" and ev[1] == rkey)
+                s2.events.append(("enum_next", rkey))
+                out.append((s2, self.mk(O, "Some", ("tup", (("const", "int", k_), nxt[3][0])))))
+            return out
         if it[0] == "call" and len(it[2]) in (1, 2) and sc_.split("::")[-1] in ("map", "copied", "cloned") \
                 and not sc_.startswith(("Option::", "Result::")):
             meth = sc_.split("::")[-1]
